@@ -445,7 +445,17 @@ def correspond(chk: Check) -> list:
                     chk.case(("x", key, s), nontrivial=len(s) > 0)
                 for v in values:
                     if kind == "str":
-                        real = gen.escape_str(v)
+                        g = gen
+                        if rng.random() < 0.5:
+                            # per-instance state must not leak between calls with different arguments: a FRESH generator
+                            # of the same class whose first escape_str call has escape_backslash=False
+                            try:
+                                g = type(gen)(dialect=gen.dialect)
+                            except Exception:  # noqa
+                                g = gen
+                            g.escape_str(v + "\\", escape_backslash=False)
+                            chk.count("escape:after-escape_backslash=False")
+                        real = g.escape_str(v)
                         lines.append(json.dumps({"op": "esc", **ref, "v": cps(v)}))
                     else:
                         _, exp, *_ = sg()
@@ -545,6 +555,8 @@ def build(kind: str, v: str, variant: int):
         return exp.RawString(this=v), ("STRING", "RAW_STRING")
     if kind == "byte":
         return exp.ByteString(this=v), ("BYTE_STRING", "STRING")
+    if kind == "unicode":
+        return exp.UnicodeString(this=v), ("UNICODE_STRING", "STRING")
     if kind == "builder":
         m = variant % 4
         if m == 0:
@@ -667,7 +679,7 @@ def consider(chk: Check, d, kind, v, opts, variant=0) -> bool:
     if res is None:
         return False
     # a defect of the plain literal / identifier reached through another API is reported as the plain one
-    if kind in ("national", "raw", "byte", "builder"):
+    if kind in ("national", "raw", "byte", "unicode", "builder"):
         for k2 in ("string", "identifier"):
             if k2 == "identifier" and kind != "builder":
                 continue
@@ -678,6 +690,231 @@ def consider(chk: Check, d, kind, v, opts, variant=0) -> bool:
     chk.report_violation(f"{kind}:{verdict}:{skeleton(v2)}", f"[{label}] {kind}: {what}",
                          {"dialect": d, "kind": kind, "value": v2, "opts": opts2, "variant": var2}, {"dialect": label})
     return True
+
+
+# ---- statement-level compositions: several literal kinds in ONE .sql() call / ONE reused Generator instance -------------
+LIT_KINDS = ["string", "identifier", "national", "raw", "byte", "unicode"]
+_SINGLE_OK: dict = {}
+
+
+def single_ok(d, kind, v) -> bool:
+    """does the literal on its own satisfy the property (otherwise it is a per-literal defect, reported separately)"""
+    key = (d, kind, v)
+    if key not in _SINGLE_OK:
+        _SINGLE_OK[key] = oracle(d, kind, v, {}, 0) is None
+    return _SINGLE_OK[key]
+
+
+def lit_node(kind, v):
+    _, exp, *_ = sg()
+    e, types = build(kind, v, 0)
+    if kind == "identifier":
+        e = exp.column(e)
+    return e, types
+
+
+def stmt_nodes(items, values):
+    nodes, types = [], []
+    for (kind, _, com), v in zip(items, values):
+        e, ty = lit_node(kind, v)
+        if com:
+            e.add_comments([com])
+        nodes.append(e)
+        types.append(ty)
+    return nodes, types
+
+
+def stmt_expr(nodes, shape):
+    _, exp, *_ = sg()
+    m = shape % 3
+    if m == 0 and len(nodes) >= 2:
+        return exp.select(*nodes[:-1]).from_("t").where(exp.column("k").eq(nodes[-1]))
+    if m == 1:
+        return exp.select(exp.func("F", *nodes)).from_("t")
+    return exp.select(*nodes)
+
+
+def compare_tokens(want, got, expect: dict, sql):
+    """`expect`: placeholder text -> (value, allowed literal token types)."""
+    if len(got) != len(want):
+        return "extra-tokens", f"{sql!r} lexes to {len(got)} tokens {got[:8]}, the same statement with placeholder values to {len(want)}"
+    for (ty0, tx0), (ty1, tx1) in zip(want, got):
+        if tx0 in expect and ty0 in expect[tx0][1]:
+            if ty1 != ty0:
+                return "extra-tokens", f"{sql!r}: token {ty1} where {ty0} was expected"
+            if tx1 != expect[tx0][0]:
+                return "wrong-text", f"{sql!r}: the literal for {expect[tx0][0]!r} lexes back as {tx1!r}"
+        elif (ty0, tx0) != (ty1, tx1):
+            return "extra-tokens", f"{sql!r}: token {(ty1, tx1)} where {(ty0, tx0)} was expected"
+    return None
+
+
+def oracle_stmt(d, spec: dict):
+    """Several literals of different kinds generated in one statement (mode "one") or one after the other by ONE reused
+    Generator instance with `pretty` toggled between the calls (mode "reuse"): every literal must come back as its own
+    single token with its own value.  None if the property holds, else (verdict, description)."""
+    _, exp, Dialect, *_ = sg()
+    d = d or None
+    items = spec["items"]
+    opts = dict(spec.get("opts", {}))
+    values = [v for _, v, _ in items]
+    holders = [f"p{i}q" for i in range(len(items))]
+    try:
+        if spec.get("mode", "one") == "one":
+            n0, types = stmt_nodes([(k, v, None) for k, v, _ in items], holders)
+            n1, _ = stmt_nodes(items, values)
+            base = stmt_expr(n0, spec.get("shape", 0)).sql(dialect=d, **opts)
+            sql = stmt_expr(n1, spec.get("shape", 0)).sql(dialect=d, **opts)
+            pairs = [(base, sql, {h: (v, ty) for h, v, ty in zip(holders, values, types)})]
+        else:
+            gen = Dialect.get_or_raise(d).generator(**opts)
+            seq = spec.get("pretty_seq") or [False] * len(items)
+            pairs = []
+            for i, item in enumerate(items):
+                pr = bool(seq[i % len(seq)])
+                n0, types = stmt_nodes([(item[0], item[1], None)], [holders[i]])
+                n1, _ = stmt_nodes([item], [values[i]])
+                o2 = {k: v for k, v in opts.items() if k != "pretty"}
+                base = Dialect.get_or_raise(d).generate(exp.select(n0[0]), pretty=pr, **o2)
+                gen.pretty = pr
+                sql = gen.generate(exp.select(n1[0]))
+                pairs.append((base, sql, {holders[i]: (values[i], types[0])}))
+    except Exception as ex:  # noqa
+        return "error", f"generation raised {type(ex).__name__}: {str(ex)[:80]}"
+    for base, sql, expect in pairs:
+        try:
+            want = toks_of(d, base)
+        except Exception as ex:  # noqa
+            return "error", f"placeholder statement {base!r} does not lex: {type(ex).__name__}"
+        try:
+            got = toks_of(d, sql)
+        except Exception as ex:  # noqa
+            return "error", f"{sql!r} does not lex: {type(ex).__name__}"
+        res = compare_tokens(want, got, expect, sql)
+        if res:
+            return res
+    return None
+
+
+def stmt_admissible(d, spec) -> bool:
+    pretty = spec.get("opts", {}).get("pretty") or any(spec.get("pretty_seq") or [])
+    for kind, v, com in spec["items"]:
+        if not single_ok(d, kind, v):
+            return False
+        if pretty and (SENTINEL in v or (com and SENTINEL in com)):
+            return False
+    return bool(spec["items"])
+
+
+def shrink_stmt(d, spec):
+    def fails(sp):
+        return stmt_admissible(d, sp) and oracle_stmt(d, sp) is not None
+
+    def with_items(items):
+        sp = dict(spec)
+        sp["items"] = items
+        return sp
+
+    changed = True
+    while changed:
+        changed = False
+        items = spec["items"]
+        for i in range(len(items)):
+            if len(items) > 1 and fails(with_items(items[:i] + items[i + 1:])):
+                spec = with_items(items[:i] + items[i + 1:])
+                changed = True
+                break
+            k, v, com = items[i]
+            if com and fails(with_items(items[:i] + [[k, v, None]] + items[i + 1:])):
+                spec = with_items(items[:i] + [[k, v, None]] + items[i + 1:])
+                changed = True
+                break
+            done = False
+            for size in range(max(1, len(v) - 1), 0, -1):
+                for j in range(0, len(v) - size + 1):
+                    cand = v[:j] + v[j + size:]
+                    if fails(with_items(items[:i] + [[k, cand, com]] + items[i + 1:])):
+                        spec = with_items(items[:i] + [[k, cand, com]] + items[i + 1:])
+                        changed = done = True
+                        break
+                if done:
+                    break
+            if done:
+                break
+    for k in list(spec.get("opts", {})):
+        sp = dict(spec)
+        sp["opts"] = {a: b for a, b in spec["opts"].items() if a != k}
+        if fails(sp):
+            spec = sp
+    if spec.get("mode") == "reuse" and any(spec.get("pretty_seq") or []):
+        sp = dict(spec)
+        sp["pretty_seq"] = [False]
+        if fails(sp):
+            spec = sp
+    if spec.get("shape"):
+        sp = dict(spec)
+        sp["shape"] = 2
+        if fails(sp):
+            spec = sp
+    return spec
+
+
+def consider_stmt(chk: Check, d, spec) -> bool:
+    """Items whose literal fails on its own get a harmless value (that defect is reported by the per-literal oracle)."""
+    spec = dict(spec)
+    spec["items"] = [[k, (v if single_ok(d, k, v) else "abc"), c] for k, v, c in spec["items"]]
+    if not stmt_admissible(d, spec):
+        return False
+    chk.count("search:statement-" + spec.get("mode", "one"))
+    res = oracle_stmt(d, spec)
+    if res is None:
+        return False
+    spec = shrink_stmt(d, spec)
+    verdict, what = oracle_stmt(d, spec)
+    kinds = ",".join(k for k, _, _ in spec["items"])
+    skel = "|".join(skeleton(v) for _, v, _ in spec["items"])
+    chk.report_violation(f"statement:{spec.get('mode', 'one')}:{verdict}:{kinds}:{skel}",
+                         f"[{d or 'base'}] several literals, {'one reused Generator' if spec.get('mode') == 'reuse' else 'one statement'}: {what}",
+                         {"dialect": d, "kind": "statement", "spec": spec}, {"dialect": d or "base"})
+    return True
+
+
+STMT_ADV = ["x\\' OR 1=1 -- ", "a\\", "'\\", "\\\\'", 'a"\\"']
+
+
+def stmt_templates(quick: bool):
+    adv = STMT_ADV[:3] if quick else STMT_ADV
+    for trig in ("raw", "byte", "unicode", "national"):
+        for a in adv:
+            yield {"mode": "one", "shape": 0, "opts": {}, "items": [[trig, "abc", None], ["string", a, None]]}
+            yield {"mode": "reuse", "opts": {}, "pretty_seq": [False, True], "items": [[trig, "abc", None], ["string", a, None]]}
+    for a in adv:
+        yield {"mode": "one", "shape": 1, "opts": {}, "items": [["string", a, None], ["raw", a, None], ["identifier", a, "c */"], ["string", a, None]]}
+        yield {"mode": "reuse", "opts": {}, "pretty_seq": [True, False], "items": [["string", a, None], ["byte", "abc", None], ["string", a, None], ["identifier", a, None]]}
+
+
+def rand_stmt_spec(rng, alpha):
+    n = rng.randint(2, 5)
+    items = []
+    for _ in range(n):
+        kind = rng.choice(["string", "string", "string", "identifier", "national", "raw", "byte", "unicode"])
+        r = rng.random()
+        if r < 0.35:
+            v = rng.choice(STMT_ADV)
+        elif r < 0.5:
+            v = "abc"
+        else:
+            v = rand_text(rng, alpha, 12)
+        if kind == "unicode":
+            # UnicodeString.this is escape-coded text (a backslash introduces a code point), not a free value: it only
+            # serves as a node that calls escape_str with other arguments; keep it harmless
+            v = rand_text(rng, ["a", "b", "0", " "], 6)
+        com = rand_text(rng, ["/", "*", " ", "a", "\\", "'"], 8) if rng.random() < 0.2 else None
+        items.append([kind, v, com or None])
+    mode = rng.choice(["one", "one", "reuse"])
+    opts = dict(rng.choice([{}, {}, {"pretty": True}, {"identify": True}]))
+    return {"mode": mode, "shape": rng.randint(0, 2), "opts": opts, "items": items,
+            "pretty_seq": [rng.random() < 0.5 for _ in range(n)] if mode == "reuse" else None}
 
 
 WITNESSES = [("athena", "string", "a\\"), ("athena", "string", "\\n"), ("clickhouse", "identifier", "a\\"),
@@ -730,10 +967,26 @@ def search(chk: Check, hints: list, budget_s: float) -> None:
             break
         if len(chk.violations) >= 5:
             break
+    # statement-level templates: a literal kind that calls escape_str with other arguments first, then an adversarial
+    # plain literal (per-instance generator state only shows in compositions), every dialect
+    for d in order:
+        for spec in stmt_templates(chk.quick):
+            if len(chk.violations) >= 5:
+                break
+            tried += 1
+            found += consider_stmt(chk, d, spec)
     # random phase
     optsets = [{}, {}, {"pretty": True}, {"identify": True}, {"pretty": True, "identify": True}, {"comments": True, "pretty": True}]
     while time.time() - t0 < budget_s and len(chk.violations) < 5:
         d = rng.choice(names)
+        if rng.random() < 0.35:
+            a = per.get(d or "base", BASE_ALPHA)
+            spec = rand_stmt_spec(rng, a if rng.random() < 0.5 else BASE_ALPHA)
+            tried += 1
+            found += consider_stmt(chk, d, spec)
+            chk.case(("st", d, json.dumps(spec, sort_keys=True)), nontrivial=True,
+                     sample={"dialect": d, "statement": spec} if tried % 2003 == 0 else None)
+            continue
         kind = rng.choice(["string", "string", "identifier", "identifier", "national", "raw", "byte", "comment", "comment", "builder", "builder"])
         a = per.get(d or "base", BASE_ALPHA)
         alpha = a if rng.random() < 0.4 else (["/", "*", " ", "a", "+", "-", "\n", "#", "{", "}"] if kind == "comment" and rng.random() < 0.6 else BASE_ALPHA)
@@ -747,7 +1000,9 @@ def search(chk: Check, hints: list, budget_s: float) -> None:
     chk.search_info = {"ran": True, "budget_s": budget_s, "inputs": tried, "violating": found,
                        "oracle": "the generated SQL lexes (the dialect's own tokenizer) to the tokens of the same expression built "
                                  "for the value 'p', with the one literal/identifier token carrying exactly v; a comment leaves "
-                                 "the statement's tokens unchanged"}
+                                 "the statement's tokens unchanged; statements mixing 2-5 literal kinds (plain/raw/byte/national/"
+                                 "unicode/identifier, with comments) in one .sql() call and through one reused Generator instance "
+                                 "with pretty toggled between calls: every literal comes back as its own token with its own value"}
 
 
 def run(chk: Check) -> None:
@@ -773,7 +1028,7 @@ def run(chk: Check) -> None:
         if proved:
             raise
         chk.note(f"model driver unavailable ({e}); continuing with the search on the real code")
-    budget = chk.pick(20, 240)
+    budget = chk.pick(26, 240)
     if chk.broken:
         budget *= 3
     search(chk, hints, budget)
@@ -788,6 +1043,9 @@ def replay(path: str) -> int:
     if not r:
         print(json.dumps(rec, indent=1))
         return 1
-    res = oracle(r["dialect"], r["kind"], r["value"], r.get("opts", {}), r.get("variant", 0))
+    if r.get("kind") == "statement":
+        res = oracle_stmt(r["dialect"], r["spec"])
+    else:
+        res = oracle(r["dialect"], r["kind"], r["value"], r.get("opts", {}), r.get("variant", 0))
     print("replay:", ("VIOLATES (" + res[0] + "): " + res[1]) if res else "holds")
     return 1 if res else 0
